@@ -1,4 +1,5 @@
 import DaskModel.Model.BagReduce
+import DaskModel.Model.TextBlocks
 /-
 `dask.bag.core`: the operations of C48 that are not plain per-partition maps.
 
@@ -11,8 +12,13 @@ Bag                                                 `List (List α)` (partitions
 `Bag.take(k, npartitions)` + `safe_take`            `takeB` (`none` = ValueError: more partitions requested than exist)
 `repartition_npartitions` (fewer)                   `boundariesFewer` (`i * n // m`, the code after the repair),
 `_repartition_from_boundaries`                      `fixBoundaries`, `fromBoundaries`
-`repartition_npartitions` (more), `_split_partitions`, `split(seq, n)`   `nsplitsMore`, `splitWith` (the float cut points
-                                                    `int(len/n * i)` are an input: the theorems hold for ANY cuts), `splitPartitions`
+`repartition_npartitions` (more), `_split_partitions`, `split(seq, n)`   `nsplitsMore`, `splitWith` (theorems for ANY monotone cuts),
+                                                    `splitCut`/`splitCuts`/`splitB`/`cutsOfBag` (the binary64 cut points `int(len/n * i)` exactly,
+                                                    via `TextBlocks.round53` at scale 2^1074), `splitPartitions`
+`repartition_size` (`_split_partitions` + `_repartition_from_boundaries(accumulate(chunk lengths))`)   `repartitionSizeB` (memory usages enter only
+                                                    through `nsplits` and the chunk lengths of `iter_chunks`: inputs)
+`from_sequence`                                     `fromSequenceSize`, `fromSequenceB`
+`Bag.mean`, `Bag.var` (`var_chunk`, `var_aggregate`)   `meanB`, `varB` (exact integer moments; the final float formula is validated)
 `Bag.product`, `concat`, `bag_zip`                  `productB`, `concatB`, `zipB`
 `Bag.fold`, `_reduce`, `_reduce_or_initial`         `foldB`
 `reduceby` per partition + merge                    `foldbyB` (association lists, first-occurrence key order)
@@ -20,7 +26,7 @@ Bag                                                 `List (List α)` (partitions
 Import-free (linked into the native driver).
 -/
 namespace Dask.BagOps
-open Dask.BagReduce
+open Dask.BagReduce Dask.TextBlocks
 
 abbrev Bag (α : Type) := List (List α)
 def den (b : Bag α) : List α := b.flatten
@@ -209,5 +215,79 @@ def frequenciesB (se : Nat) (b : Bag Nat) : Option (List (Nat × Nat)) := reduct
 
 /-- `Bag.distinct()`: `toolz.unique` per partition, then over the concatenation -/
 def distinctB (b : Bag Nat) : Option (List Nat) := reduction List.eraseDups (fun rs => rs.flatten.eraseDups) 8 b
+
+/-! ### `split(seq, n)`: the float cut points `int(len(seq) / n * i)` exactly -/
+
+/-- scale for the doubles of `split`: every double that occurs (`len/n ≥ 2^-100`, products with `i`) is a
+    multiple of `2^-1074`; in these units all of them are `≥ 2^53`, so `round53` rounds to 53 significant bits -/
+def T : Nat := 2 ^ 1074
+
+/-- `int(len / n * i)` (CPython: `len / n` correctly rounded int/int division, `* i` a correctly rounded float
+    product, `int` truncation) -/
+def splitCut (len n i : Nat) : Nat := round53 (round53 (len * T) n * i) 1 / T
+
+/-- the cut points `[int(part * i) for i in range(n)]` of `split(seq, n)` -/
+def splitCuts (len n : Nat) : List Nat := (List.range n).map (splitCut len n)
+
+/-- `split(seq, n)` -/
+def splitB (n : Nat) (seq : List α) : List (List α) := splitWith (splitCuts seq.length n) seq
+
+/-- the cut points `repartition_npartitions` uses for old partition `i` when going to `m` partitions -/
+def cutsOfBag (b : Bag α) (m : Nat) (i : Nat) : List Nat :=
+  splitCuts (b.getD i []).length ((nsplitsMore b.length m).getD i 1)
+
+/-! ### `repartition(partition_size=…)`: `_split_partitions` with any `nsplits`, then `_repartition_from_boundaries`
+    with the running sums of any chunk lengths (`iter_chunks` of the memory usages — an input) -/
+
+def runningSums : Nat → List Nat → List Nat
+  | _, [] => []
+  | acc, c :: cs => (acc + c) :: runningSums (acc + c) cs
+
+def repartitionSizeB (nsplits chunks : List Nat) (b : Bag α) : Bag α :=
+  let b' := splitPartitions (fun i => splitCuts (b.getD i []).length (nsplits.getD i 1)) nsplits b
+  fromBoundaries b' (fixBoundaries b'.length (runningSums 0 chunks))
+
+/-! ### `from_sequence` -/
+
+/-- `math.ceil(math.sqrt(n) / math.sqrt(100))`: the least `c` with `(10 c)² ≥ n` -/
+def ceilSqrtDiv10 (n : Nat) : Nat := if n = 0 then 0 else Nat.sqrt (n - 1) / 10 + 1
+
+/-- the partition size `from_sequence(seq, partition_size, npartitions)` uses (`n = len(seq)`); `none` = the call
+    does not return a bag (`npartitions=0` without a size: TypeError) -/
+def fromSequenceSize (n : Nat) (partitionSize npartitions : Option Nat) : Option Nat :=
+  match partitionSize, npartitions with
+  | some (ps + 1), _ => some (ps + 1)
+  | some 0, some (np + 1) => some (if n ≤ 100 then (n + np) / (np + 1) else max 1 (n / (np + 1)))
+  | none, some (np + 1) => some (if n ≤ 100 then (n + np) / (np + 1) else max 1 (n / (np + 1)))
+  | none, none => some (if n ≤ 100 then 1 else max 1 (ceilSqrtDiv10 n))
+  | _, _ => none
+
+/-- `from_sequence`: `partition_all(size, seq)`, one empty partition for an empty sequence; `none`: no bag
+    (no usable size, or `partition_all(0, non-empty)`) -/
+def fromSequenceB (seq : List α) (partitionSize npartitions : Option Nat) : Option (Bag α) :=
+  match fromSequenceSize seq.length partitionSize npartitions with
+  | none => none
+  | some size =>
+    if seq.isEmpty then some [[]]
+    else if size = 0 then none
+    else some (partitionAll size seq)
+
+/-! ### `mean`, `var`, `std`: the exact integer moments that reach the final float formula -/
+
+def sumInt (l : List Int) : Int := l.foldl (· + ·) 0
+def sumNat (l : List Nat) : Nat := l.foldl (· + ·) 0
+
+/-- `Bag.mean()`: `reduction(mean_chunk, mean_aggregate, split_every=False)`; the value is
+    `1.0 * total / count`. Inner `none` = the call raises (no element: ZeroDivisionError / ValueError). -/
+def meanB (b : Bag Int) : Option (Option (Int × Nat)) :=
+  (reduction (fun p => (sumInt p, p.length)) (fun rs => (sumInt (rs.map (·.1)), sumNat (rs.map (·.2)))) b.length b).map
+    fun tc => if tc.2 = 0 then none else some tc
+
+/-- `Bag.var(ddof)`: `(x2, x, n)` = sums of `var_chunk`'s `(squares, total, n)`; the value is
+    `(x2/n - (x/n)**2) * n / (n - ddof)`. Inner `none` = raises (`n = 0` or `n = ddof`). -/
+def varB (ddof : Nat) (b : Bag Int) : Option (Option (Int × Int × Nat)) :=
+  (reduction (fun p => (sumInt (p.map fun x => x * x), sumInt p, p.length))
+      (fun rs => (sumInt (rs.map (·.1)), sumInt (rs.map (·.2.1)), sumNat (rs.map (·.2.2)))) b.length b).map
+    fun t => if t.2.2 = 0 ∨ t.2.2 = ddof then none else some t
 
 end Dask.BagOps
